@@ -55,7 +55,11 @@ Definition zero_id : id := 0%N.
 (* len(b) > 0 ; a nil slice and an empty slice are the same thing here *)
 Definition nonempty (b : bytes) : bool := match b with [] => false | _ :: _ => true end.
 
-(* chunk.go: type Chunk *)
+(* chunk.go: type Chunk.  A model chunk is a VALUE: its byte strings are not shared with
+   anything a store mutates later.  The code has to provide that (a backend must hand
+   NewChunkFromStorage a slice nobody writes to afterwards; with an empty converter list
+   Converters.fromStorage returns its input, so the chunk's data IS that slice); the harness
+   checks it by holding every returned chunk while the store is used further. *)
 Record chunk := mkChunk {
   c_data : bytes;      (* plain data if available (nil = []) *)
   c_storage : bytes;   (* storage format *)
